@@ -799,6 +799,21 @@ func (tb *TB) BVCmp(op string, a, b *Term) *Term {
 			return tb.False()
 		}
 	}
+	// canonical comparisons: only bvslt / bvult (and their negations)
+	switch op {
+	case "bvsgt":
+		return tb.mk("bvslt", SBool, "", nil, b, a)
+	case "bvugt":
+		return tb.mk("bvult", SBool, "", nil, b, a)
+	case "bvsle":
+		return tb.Not(tb.mk("bvslt", SBool, "", nil, b, a))
+	case "bvule":
+		return tb.Not(tb.mk("bvult", SBool, "", nil, b, a))
+	case "bvsge":
+		return tb.Not(tb.mk("bvslt", SBool, "", nil, a, b))
+	case "bvuge":
+		return tb.Not(tb.mk("bvult", SBool, "", nil, a, b))
+	}
 	return tb.mk(op, SBool, "", nil, a, b)
 }
 
